@@ -111,6 +111,12 @@ class Layouts:
         if kb == "iid":
             return a
         for x, y in ((a, b), (b, a)):
+            if x[0] in ("pair", "iidpair") and y[0] == "pair" and y[2] == "1":
+                if x[1] == y[1] or x[1] == "?":
+                    return ("pair", x[1], x[2])
+                if x[2] == "C" and y[1] == "C":
+                    self.conflict(node, "per-row parameters shaped [rows, 1, ...] are broadcast against a tensor shaped [num_samples, rows, ...]: the row axis meets the sample axis")
+                return ("pair", x[1], x[2])
             if x[0] in ("merged", "pair") and y[0] == x[0] and len(x) == 3:
                 if {x[1], x[2]} == {y[1], y[2]} == {"C", "N"} and (x[1], x[2]) != (y[1], y[2]):
                     self.conflict(node, "two tensors with the leading axes (%s, %s) and (%s, %s) are combined element-wise: row r of one meets the samples of other rows in the other" % (x[1], x[2], y[1], y[2]))
@@ -173,7 +179,11 @@ class Layouts:
             if isinstance(first, ast.Constant) and first.value is Ellipsis:
                 return self.lead(e.value)
             if isinstance(first, ast.Slice) and first.lower is None and first.upper is None and first.step is None:
-                return self.lead(e.value)
+                base = self.lead(e.value)
+                second = sl.elts[1] if isinstance(sl, ast.Tuple) and len(sl.elts) > 1 else None
+                if isinstance(second, ast.Constant) and second.value is None and base == ROWS:
+                    return ("pair", "C", "1")  # x[:, None]: a singleton sample axis
+                return base
             return ANY
         if isinstance(e, ast.Tuple):
             return ANY
@@ -235,6 +245,10 @@ class Layouts:
             lx = self.lead(x) if x is not None else ANY
             if lx == ROWS and d is not None and const_number(d) == 0:
                 return ("merged", "C", self.tag(reps) if self.tag(reps) == "N" else "?")
+            return ANY
+        if last == "unsqueeze" and is_method and len(ops) == 2 and const_number(ops[1]) == 1:
+            if self.lead(ops[0]) == ROWS:
+                return ("pair", "C", "1")
             return ANY
         if last in ("repeat", "tile") and is_method:
             x = ops[0]
